@@ -350,7 +350,10 @@ def merge_defs(name, classes):
     """a definition in which the edges over `classes` (pairwise disjoint) leave one state and reach states with identical
     continuations, so that Graph::new merges them into one edge"""
     alts = b"|".join(b"\\x58" + _cls_text(c) + b"\\x59\\x5a" for c in classes[:3])
-    return [mk("clsm_" + name, [rx(b"(?-u)(?:" + alts + b")"), tok(b"\x58")], utf8=False, tags=["class"])]
+    # with a shorter token to fall back on (a lost byte shows as the wrong token, C01) and without (it shows as an error
+    # where a token is due and as error spans that are too short, C02)
+    return [mk("clsm_" + name, [rx(b"(?-u)(?:" + alts + b")"), tok(b"\x58")], utf8=False, tags=["class"]),
+            mk("clsn_" + name, [rx(b"(?-u)(?:" + alts + b")"), tok(b"\x21")], utf8=False, tags=["class"])]
 
 
 def class_defs(name, rs):
